@@ -162,7 +162,7 @@ class CorralLearner(Learner):
             lmbda = min_loss
         elif min_loss not in denom_zeros and round(f(min_loss),precision) == 1:
             lmbda = min_loss
-        elif max_loss not in denom_zeros and round(f(max_loss),precision) == 1:
+        elif max_loss < min(denom_zeros) and round(f(max_loss),precision) == 1:
             lmbda = max_loss
         else:
             lmbda = find_root_of_1()
